@@ -168,8 +168,9 @@ pub mod implementations {
             .context("Expected an operation [+=,-=,*=,/=,%=]")?;
 
         if let Some(name) = args.get(1) {
+            // `x op= v` writes the variable that reading `x` reads
             let bundle = ctx
-                .load_variable(name)
+                .load_lexical(name)
                 .with_context(|| format!("{name} has not been mapped"))?;
             let value: &mut Primitive = ctx
                 .get_last_op_item_mut()
